@@ -85,5 +85,8 @@ pub mod stdx {
                 forall|i: int, j: int| #![trigger final(s)@[i], final(s)@[j]] 0 <= i < j < final(s)@.len() ==> exists|o: std::cmp::Ordering| #[trigger] f.ensures((&final(s)@[i], &final(s)@[j]), o) && o != std::cmp::Ordering::Greater;
     pub assume_specification<T> [ <[T]>::reverse ] (s: &mut [T])
         ensures final(s)@ == old(s)@.reverse();
+
+    pub assume_specification [ <str as PartialOrd>::partial_cmp ] (a: &str, b: &str) -> (r: Option<std::cmp::Ordering>)
+        ensures r == Some(str_ord(a@, b@));
 }
 } // verus!
